@@ -32,7 +32,25 @@ func ScratchDir(s *kernel.Sim, name string) string {
 		panic(err)
 	}
 	s.OnTeardown(func() { os.RemoveAll(dir) })
+	scratchMu.Lock()
+	scratchDirs = append(scratchDirs, dir)
+	if len(scratchDirs) > 64 {
+		scratchDirs = scratchDirs[len(scratchDirs)-64:]
+	}
+	scratchMu.Unlock()
 	return dir
+}
+
+var (
+	scratchMu   sync.Mutex
+	scratchDirs []string
+)
+
+// RecentScratchDirs are the scratch directories this process created last (the worker's watchdog adds up what they hold).
+func RecentScratchDirs() []string {
+	scratchMu.Lock()
+	defer scratchMu.Unlock()
+	return append([]string(nil), scratchDirs...)
 }
 
 // BadgerOptions are the production options (badger.DefaultOptions(dir), as
